@@ -44,7 +44,9 @@ fn handle(line: &str) -> String {
 
 fn main() {
     // panics are caught per case and reported as an outcome; keep stderr quiet
-    std::panic::set_hook(Box::new(|_| {}));
+    if std::env::var_os("VERIF_SHOW_PANIC").is_none() {
+        std::panic::set_hook(Box::new(|_| {}));
+    }
     let stdin = std::io::stdin();
     let stdout = std::io::stdout();
     let mut out = std::io::BufWriter::new(stdout.lock());
